@@ -559,6 +559,10 @@ func TestVerif_C07_h2hostile(t *testing.T) {
 	cpu := c07IdleCPU()
 	s.Observe("idle-cpu", cpu < 600*time.Millisecond, "", true, "process CPU time during 1 s of idleness after the run", fmt.Sprintf("a goroutine is spinning: %v CPU in 1 s idle", cpu))
 	s.Observe("goroutines", g1 <= g0+8, "", true, fmt.Sprintf("goroutines before=%d after=%d", g0, g1), fmt.Sprintf("goroutines leaked: before=%d after=%d", g0, g1))
+	peer.closeAll()
+	stuck, where := c07StuckLoops("http2.(*ClientConn).readLoop", "http2.(*clientStream).doRequest")
+	s.Observe("stuck-h2-loops", stuck == 0, "", true, fmt.Sprintf("HTTP/2 connection/stream goroutines still alive after every connection was closed: %d", stuck),
+		fmt.Sprintf("%d HTTP/2 read-loop / request goroutines are stuck after every connection was closed by the peer, e.g.:\n%s", stuck, where))
 	s.Finish()
 }
 
